@@ -190,8 +190,9 @@ CONFIG["C13"] = dict(
     trusted_base=["harness/cmd/extract (go/ast walker, fails closed on unknown statement shapes)", "sync.Mutex / Go memory model assumed"],
 )
 CONFIG["C14"] = dict(
+    modules=["CanVerif.Props.C14", "CanVerif.Props.C14Stop"],
     level_text="Kernel-checked Lean theorems (Props/C14.lean) over the labelled transition system of the transmitter loop (wake-up channel of capacity 1, flag, any number of toggling applications, event requests by rendezvous, a tick channel that Stop does not drain): for every reachable state of every interleaving, toggles are never lost (parked with no wake-up pending and no toggle in progress implies ticker armed iff enabled), sent + in-flight = accepted requests + consumed ticks, and after a handled disable at most one already-due tick is consumed. The real functions are run against step-controlled fakes: receiver scripts with faults at every position, all transmitter event sequences up to length 3 (quick) / 4 (thorough) over {request, enable, disable, cancel, hook error, transmit error} plus sampled longer ones, real-time cyclic transmission with a 3 ms cycle (frames start after enable, at most one after a handled disable), and canrunner.Run over net.Pipe (returns nil on cancel / the error on a failing hook, connection closed, no goroutine left).",
-    level_note="Partial: the stop/fault clauses and the timed clause are measured, not proved (real time, errgroup, net.Conn). Known finding F2: Run maps any error containing 'closed' to nil.",
+    level_note="Stop and fault clauses (Props/C14Stop.lean, Model/RunGroup.lean: the errgroup of Run with its derived context, the closing goroutine, the receiver, one transmitter per message): for every number of transmitters and every schedule, a run whose only errors are closed-connection errors returns nil (C14_clean_stop), the connection is closed once all goroutines have returned (C14_terminal_conn_closed), the first recorded error is what Run returns unless its text contains 'closed' (C14_fault_reported; the complement is finding F2, C14_F2_swallowed), and from every reachable state with a done context some goroutine can return (C14_no_goroutine_left). What hooks, Receive and TransmitFrame do is not modelled (a goroutine may fail at any time; they are assumed to return), the timed clause is measured; the real Run is compared with the model on cancel / hook-failure / cancel-inside-hook scenarios with a goroutine-leak check. Known finding F2: Run maps any error containing 'closed' to nil.",
     level="proof",
     trivial=r"^$",
     rule="every script runs the real runner function to completion; traces, frame counts, returned error class and leak/close checks are compared",
